@@ -426,7 +426,13 @@ func parseSpecFunc(rest string) (*SpecFunc, error) {
 	after := strings.TrimSpace(r[j+1:])
 	k := strings.Index(after, "=")
 	if k < 0 {
-		return nil, fmt.Errorf("spec func: missing '='")
+		// no body: an uninterpreted function (an abstraction named by the contracts; the only facts known
+		// about it are those that trusted contracts and lemmas state)
+		sf.Ret = after
+		if sf.Ret == "" {
+			return nil, fmt.Errorf("spec func: missing result type")
+		}
+		return sf, nil
 	}
 	sf.Ret = strings.TrimSpace(after[:k])
 	e, err := ParseExpr(after[k+1:])
